@@ -142,6 +142,9 @@ def run(ctx):
         node, form, elem, idx = cons[0]
         if form in ("sliced", "enumerate-sliced"):
             o.violated(fn, node.iter, f"the consumption loop iterates `{txt(node.iter)}`: some topology's stubs are never matched")
+        elif form == "enumerate-filtered":
+            o.violated(fn, node.iter, f"the stub lists are filtered BEFORE they are enumerated (`{txt(node.iter)}`): after a skipped (e.g. empty) topology every later topology gets "
+                                      "the index of its predecessor and is grouped with the wrong motif size, build callback and edge name")
         elif form != "enumerate":
             o.undecided(f"consumption loop form `{form}` not recognised", fn, node)
         else:
